@@ -98,6 +98,8 @@ def random_case(rng: random.Random) -> dict:
     case["ext"] = [{"name": f"x{i + 1}", "deps": [], "fld": "", "disc": [], "style": rng.choice(["raise", "yield"]),
                     "out": rng.choice(["pass", "fail"])} for i in range(rng.choice([0, 0, 1, 2]))]
     case["extmode"] = rng.choice(["arg", "annotated", "field"]) if case["ext"] else "arg"
+    # an object-level constraint (@schema(max_props=k)): a structural error at the root of the object
+    case["maxp"] = rng.choice([1, 2]) if len(fields) >= 2 and not case["ext"] and not case["depreq"] and rng.random() < 0.3 else 0
     # an InitVar dependency (declared parameter) -- kept out of field validators / yielded paths
     cand = [f["name"] for f in fields if not any(v["fld"] == f["name"] for v in vals)]
     if cand and rng.random() < 0.3:
@@ -160,9 +162,11 @@ def main() -> int:
     neg["depreqvalid"] = r.violated
     r = tlc.run_tlc("MC_Validators", cfg(1, 1, dev='"extdropped"', ext=True), workers=8, env={"EMIT": "0"}, timeout_s=1800)
     neg["extdropped"] = r.violated
+    r = tlc.run_tlc("MC_Validators", cfg(2, 1, dev='"rooterrdropped"'), workers=8, env={"EMIT": "0"}, timeout_s=1800)
+    neg["rooterrdropped"] = r.violated
     rep.set("negative_checks", neg)
     if neg["selfrerun"] != "Termination" or neg["aliasgate"] != "RunIff" or neg["depreqvalid"] != "RunIff" \
-            or neg["extdropped"] != "RunIff":
+            or neg["extdropped"] != "RunIff" or neg["rooterrdropped"] not in ("MergedOnce", "ConstructRule"):
         raise tlc.MachineryError(f"negative model checks no longer violate the invariants: {neg}")
     # 4. sampled rich cases (up to 4 fields / 4 validators, every option) by TLC simulation, replayed
     nsim = 6000 if thorough else 1200
@@ -187,7 +191,7 @@ def main() -> int:
         out = valcase.run_case(case)
         distinct.add(valcase.shape_key(case))
         execs.append({"id": i + 1, "case": {"fields": case["fields"], "vals": case["vals"], "depreq": bool(case.get("depreq")),
-                               "ext": case["ext"], "extmode": case["extmode"]},
+                               "ext": case["ext"], "extmode": case["extmode"], "maxp": case["maxp"]},
                       "kind": out["kind"], "ran": out["ran"], "errs": out["errs"], "constructed": out["constructed"],
                       "_full": case})
     wd = tlc.scratch_dir("verifval_")
